@@ -36,6 +36,9 @@ Proof. intros; unfold cnt; lia. Qed.
 
 Definition later (t : Z) (dp : Z * nat) : bool := t <? fst dp.
 
+Lemma later_leb : forall t d (q : nat), later t (d, q) = negb (d <=? t).
+Proof. intros; unfold later; cbn [fst]. destruct (Z.ltb_spec t d); destruct (Z.leb_spec d t); try reflexivity; lia. Qed.
+
 Lemma fire_spec : forall t pend f,
   fst (fire t pend f) = filter (later t) pend /\
   forall p, snd (fire t pend f) p = f p - (cnt p pend - cnt p (filter (later t) pend)).
@@ -44,24 +47,23 @@ Proof.
   - cbn [fire filter fst snd]. split; [reflexivity|intros; rewrite !cnt_nil; lia].
   - cbn [fire]. destruct (fire t r f) as [r' f'] eqn:E.
     specialize (IH f). rewrite E in IH. cbn [fst snd] in IH. destruct IH as [IH1 IH2].
-    cbn [filter]. unfold later at 1 3. cbn [fst].
-    destruct (Z.leb_spec d t) as [Hle|Hgt]; destruct (Z.ltb_spec t d) as [Hlt|Hge]; try lia; cbn [fst snd].
+    cbn [filter]. rewrite later_leb.
+    destruct (d <=? t); cbn [negb fst snd].
     + split; [assumption|]. intros p. rewrite cnt_cons.
       destruct (Nat.eqb_spec q p) as [->|Hne].
       * rewrite addz_same, IH2. lia.
       * rewrite addz_other by congruence. rewrite IH2. lia.
-    + split; [rewrite IH1; reflexivity|]. intros p. rewrite !cnt_cons, IH2, IH1. lia.
+    + split; [rewrite IH1; reflexivity|]. intros p. rewrite !cnt_cons, IH2. lia.
 Qed.
 
 Lemma filter_later_mono : forall t1 t2 l, t1 <= t2 -> filter (later t2) (filter (later t1) l) = filter (later t2) l.
 Proof.
   intros t1 t2 l H. induction l as [|[d q] r IH]; [reflexivity|].
-  cbn [filter]. unfold later at 2 4; cbn [fst].
-  destruct (Z.ltb_spec t1 d); destruct (Z.ltb_spec t2 d) as [H2|H2]; cbn [filter]; unfold later at 1; cbn [fst].
-  - destruct (Z.ltb_spec t2 d); [|lia]. rewrite IH; reflexivity.
-  - destruct (Z.ltb_spec t2 d); [lia|]. apply IH.
-  - lia.
+  cbn [filter]. rewrite !later_leb.
+  destruct (Z.leb_spec d t1); destruct (Z.leb_spec d t2); cbn [negb filter]; rewrite ?later_leb; try lia.
   - apply IH.
+  - destruct (Z.leb_spec d t2); [|lia]. cbn [negb]. apply IH.
+  - destruct (Z.leb_spec d t2); [lia|]. cbn [negb]. rewrite IH; reflexivity.
 Qed.
 
 (* every forgetter the history has started *)
@@ -78,6 +80,16 @@ Definition last_time (h : list tev) (lo : Z) : Z := last (map fst h) lo.
 Lemma last_time_snoc : forall h lo t e, last_time (h ++ [(t, e)]) lo = t.
 Proof. intros; unfold last_time; rewrite map_app; cbn. apply last_last. Qed.
 
+Lemma last_default_irrel : forall (l : list Z) a d1 d2, last (a :: l) d1 = last (a :: l) d2.
+Proof.
+  induction l as [|b l IH]; intros a d1 d2; [reflexivity|].
+  change (last (a :: b :: l) d1) with (last (b :: l) d1). change (last (a :: b :: l) d2) with (last (b :: l) d2). apply IH.
+Qed.
+Lemma last_cons_default : forall (l : list Z) t lo, last (t :: l) lo = last l t.
+Proof.
+  intros [|a l] t lo; [reflexivity|]. change (last (t :: a :: l) lo) with (last (a :: l) lo). apply last_default_irrel.
+Qed.
+
 (* sortedness in snoc form *)
 Lemma sortedb_app : forall h1 h2 lo,
   sortedb (h1 ++ h2) lo = sortedb h1 lo && sortedb h2 (last_time h1 lo).
@@ -85,10 +97,7 @@ Proof.
   induction h1 as [|[t e] r IH]; intros h2 lo.
   - reflexivity.
   - cbn [app sortedb]. rewrite IH. unfold last_time. cbn [map fst].
-    replace (last (t :: map fst r) lo) with (last (map fst r) t).
-    + rewrite andb_assoc; reflexivity.
-    + generalize (map fst r) as l. intros l. revert t. induction l as [|x l IHl]; intros t0; [reflexivity|].
-      cbn [last]. destruct l; [reflexivity|]. apply (IHl x).
+    rewrite last_cons_default. rewrite andb_assoc; reflexivity.
 Qed.
 
 (* invariant: the sleeping forgetters are exactly the started ones that end after the last event,
@@ -234,15 +243,15 @@ Theorem avail_iff : forall c s u,
 Proof.
   intros c s u. unfold avail, available, healthy, full, to_upstream, peer_healthy.
   cbn [Select.peers Select.maxConns Select.maxFails].
-  rewrite !andb_true_iff, negb_true_iff, !forallb_map.
+  rewrite !andb_true_iff, negb_true_iff, !forallb_map, existsb_map.
   cbn [Select.unhealthy Select.fails Select.numConns].
   split.
   - intros [[H1 H2] H3]. repeat split.
     + intros p Hp. rewrite forallb_forall in H1. apply Z.eqb_eq. apply H1; assumption.
     + intros Hpos p Hp. destruct (Z.ltb_spec 0 (max_fails c)); [|lia].
-      rewrite forallb_map, forallb_forall in H2. cbn in H2. apply Z.ltb_lt. apply H2; assumption.
+      rewrite forallb_forall in H2. apply Z.ltb_lt. apply H2; assumption.
     + destruct (Z.eqb_spec (nth u (max_conns c) 0) 0); [left; assumption|right].
-      intros p Hp. rewrite existsb_map in H3. cbn in H3.
+      intros p Hp.
       destruct (Z.ltb_spec (h_conns s p) (nth u (max_conns c) 0)); [assumption|].
       assert (existsb (fun x => nth u (max_conns c) 0 <=? h_conns s x) (peers_of c u) = true).
       { apply existsb_exists. exists p. split; [assumption|]. apply Z.leb_le. assumption. }
@@ -250,10 +259,9 @@ Proof.
   - intros [H1 [H2 H3]]. repeat split.
     + apply forallb_forall. intros p Hp. apply Z.eqb_eq. apply H1; assumption.
     + destruct (Z.ltb_spec 0 (max_fails c)); [|reflexivity].
-      rewrite forallb_map. apply forallb_forall. intros p Hp. cbn. apply Z.ltb_lt. apply H2; assumption.
+      apply forallb_forall. intros p Hp. apply Z.ltb_lt. apply H2; assumption.
     + destruct (Z.eqb_spec (nth u (max_conns c) 0) 0); [reflexivity|].
       destruct H3 as [H3|H3]; [contradiction|].
-      rewrite existsb_map. cbn.
       destruct (existsb (fun x => nth u (max_conns c) 0 <=? h_conns s x) (peers_of c u)) eqn:E; [|reflexivity].
       apply existsb_exists in E. destruct E as [p [Hp Hle]]. apply Z.leb_le in Hle. specialize (H3 p Hp). lia.
 Qed.
@@ -299,82 +307,103 @@ Definition att_kind (a : att) : attempt := fst (fst a).
 
 Definition err_of (o : option Z) : Z := match o with Some e => e | None => err_no_upstreams end.
 
-(* attempt k was made at [nth k ts 0] *)
-Lemma handle_loop_spec : forall td ti start atts now pe ts o,
-  handle_loop td ti start now pe atts = (ts, o) ->
-  (atts <> [] -> nth 0 ts 0 = now /\ (length ts <= length atts)%nat /\ (1 <= length ts)%nat) /\
-  (forall k, (S k < length ts)%nat ->
-     let a := nth k atts (ADialOk, 0, 0) in
-     att_ok a = false /\ nth k ts 0 + att_d a - start < td /\
-     nth (S k) ts 0 = nth k ts 0 + att_d a + ti + att_j a) /\
-  (forall e, o = Failed e ->
-     let m := length ts in let a := nth (m - 1) atts (ADialOk, 0, 0) in
-     att_ok a = false /\ td <= nth (m - 1) ts 0 + att_d a - start /\
-     e = err_of (last_error (map att_kind (firstn m atts)) pe)) /\
-  (o = Proxied -> att_ok (nth (length ts - 1) atts (ANoUpstream, 0, 0)) = true /\
-                  forall k, (k < length ts - 1)%nat -> att_ok (nth k atts (ADialOk, 0, 0)) = false) /\
-  (o = OracleExhausted -> length ts = length atts /\ forall k, (k < length atts)%nat -> att_ok (nth k atts (ADialOk, 0, 0)) = false).
+Definition upd_err (a : attempt) (pe : option Z) : option Z :=
+  match a with
+  | ANoUpstream => match pe with None => Some err_no_upstreams | s => s end
+  | ADialErr e => Some e
+  | ADialOk => pe
+  end.
+
+Lemma handle_loop_unfold : forall td ti start now pe a d j r,
+  handle_loop td ti start now pe ((a, d, j) :: r) =
+  if att_ok (a, d, j) then ([now], Proxied)
+  else if (now + d - start) >=? td then ([now], Failed (err_of (upd_err a pe)))
+  else let '(ts, o) := handle_loop td ti start (now + d + ti + j) (upd_err a pe) r in (now :: ts, o).
+Proof. intros. destruct a; reflexivity. Qed.
+
+Lemma last_error_cons : forall a r pe, last_error (a :: r) pe = last_error r (upd_err a pe).
+Proof. intros [|e|] r pe; reflexivity. Qed.
+
+Lemma handle_loop_nonempty : forall td ti start a r now pe ts o,
+  handle_loop td ti start now pe (a :: r) = (ts, o) ->
+  exists ts', ts = now :: ts' /\ (length ts' <= length r)%nat.
 Proof.
-  intros td ti start atts. induction atts as [|[[a d] j] r IH]; intros now pe ts o H.
-  - cbn in H. inversion H; subst. repeat split; try discriminate; try (intros; cbn in *; lia); try congruence.
-  - cbn [handle_loop] in H.
-    destruct a as [|e0|].
-    + (* ANoUpstream *)
-      destruct (Z.geb_spec (now + d - start) td) as [Hge|Hlt].
-      * inversion H; subst. cbn [length nth]. repeat split; try discriminate; try (intros; cbn in *; lia); try lia.
-        -- intros e He. inversion He; subst. cbn. repeat split; try lia. destruct pe; reflexivity.
-      * destruct (handle_loop td ti start (now + d + ti + j) _ r) as [ts' o'] eqn:E.
-        inversion H; subst. specialize (IH _ _ _ _ E).
-        destruct IH as [I1 [I2 [I3 [I4 I5]]]].
-        assert (Hts' : r <> [] -> nth 0 ts' 0 = now + d + ti + j /\ (1 <= length ts')%nat /\ (length ts' <= length r)%nat).
-        { intros Hr. destruct (I1 Hr) as [A [B C]]. auto. }
-        destruct r as [|a1 r1].
-        { cbn in E. inversion E; subst. cbn [length nth]. repeat split; try discriminate; try (intros; cbn in *; lia); try lia.
-          intros _. split; [reflexivity|]. intros k Hk. cbn in Hk. assert (k = 0)%nat by lia. subst. reflexivity. }
-        destruct (Hts' ltac:(discriminate)) as [T0 [T1 T2]].
-        repeat split.
-        -- cbn [length]. lia.
-        -- cbn [length]. lia.
-        -- intros k Hk. cbn [length] in Hk. destruct k as [|k].
-           ++ cbn [nth]. unfold att_ok, att_d, att_j. cbn. repeat split; try lia.
-           ++ cbn [nth]. apply I2. lia.
-        -- intros e He. specialize (I3 e He). cbn zeta in I3. destruct I3 as [J1 [J2 J3]].
-           cbn [length]. replace (S (length ts') - 1)%nat with (S (length ts' - 1)) by lia.
-           cbn [nth]. repeat split; try assumption.
-           cbn [firstn map last_error att_kind fst]. exact J3.
-        -- intros Ho. specialize (I4 Ho). destruct I4 as [K1 K2]. cbn [length].
-           replace (S (length ts') - 1)%nat with (S (length ts' - 1)) by lia. cbn [nth]. split; [assumption|].
-           intros k Hk. destruct k as [|k]; [reflexivity|]. cbn [nth]. apply K2. lia.
-        -- intros Ho. specialize (I5 Ho). destruct I5 as [L1 L2]. cbn [length]. split; [lia|].
-           intros k Hk. destruct k as [|k]; [reflexivity|]. cbn [nth]. apply L2. cbn [length] in Hk. lia.
-    + (* ADialErr *)
-      destruct (Z.geb_spec (now + d - start) td) as [Hge|Hlt].
-      * inversion H; subst. cbn [length nth]. repeat split; try discriminate; try (intros; cbn in *; lia); try lia.
-        -- intros e He. inversion He; subst. cbn. repeat split; try lia.
-      * destruct (handle_loop td ti start (now + d + ti + j) _ r) as [ts' o'] eqn:E.
-        inversion H; subst. specialize (IH _ _ _ _ E).
-        destruct IH as [I1 [I2 [I3 [I4 I5]]]].
-        destruct r as [|a1 r1].
-        { cbn in E. inversion E; subst. cbn [length nth]. repeat split; try discriminate; try (intros; cbn in *; lia); try lia.
-          intros _. split; [reflexivity|]. intros k Hk. cbn in Hk. assert (k = 0)%nat by lia. subst. reflexivity. }
-        destruct (I1 ltac:(discriminate)) as [T0 [T2 T1]].
-        repeat split.
-        -- cbn [length]. lia.
-        -- cbn [length]. lia.
-        -- intros k Hk. cbn [length] in Hk. destruct k as [|k].
-           ++ cbn [nth]. unfold att_ok, att_d, att_j. cbn. repeat split; try lia.
-           ++ cbn [nth]. apply I2. lia.
-        -- intros e He. specialize (I3 e He). cbn zeta in I3. destruct I3 as [J1 [J2 J3]].
-           cbn [length]. replace (S (length ts') - 1)%nat with (S (length ts' - 1)) by lia.
-           cbn [nth]. repeat split; try assumption.
-        -- intros Ho. specialize (I4 Ho). destruct I4 as [K1 K2]. cbn [length].
-           replace (S (length ts') - 1)%nat with (S (length ts' - 1)) by lia. cbn [nth]. split; [assumption|].
-           intros k Hk. destruct k as [|k]; [reflexivity|]. cbn [nth]. apply K2. lia.
-        -- intros Ho. specialize (I5 Ho). destruct I5 as [L1 L2]. cbn [length]. split; [lia|].
-           intros k Hk. destruct k as [|k]; [reflexivity|]. cbn [nth]. apply L2. cbn [length] in Hk. lia.
-    + (* ADialOk *)
-      inversion H; subst. cbn [length nth]. repeat split; try discriminate; try (intros; cbn in *; lia); try lia.
-      intros _. split; [reflexivity|]. intros k Hk. cbn in Hk. lia.
+  intros td ti start a r. revert a. induction r as [|b r IH]; intros [[a d] j] now pe ts o H; rewrite handle_loop_unfold in H.
+  - destruct (att_ok (a, d, j)); [inversion H; subst; exists []; split; [reflexivity|cbn; lia]|].
+    destruct (now + d - start >=? td); [inversion H; subst; exists []; split; [reflexivity|cbn; lia]|].
+    cbn in H. inversion H; subst. exists []. split; [reflexivity|cbn; lia].
+  - destruct (att_ok (a, d, j)); [inversion H; subst; exists []; split; [reflexivity|cbn; lia]|].
+    destruct (now + d - start >=? td); [inversion H; subst; exists []; split; [reflexivity|cbn; lia]|].
+    destruct (handle_loop td ti start (now + d + ti + j) (upd_err a pe) (b :: r)) as [ts' o'] eqn:E.
+    inversion H; subst. destruct (IH _ _ _ _ _ E) as [ts2 [-> Hl]]. exists ((now + d + ti + j) :: ts2).
+    split; [reflexivity|cbn [length]; lia].
+Qed.
+
+(* attempt k was made at [nth k ts 0]; it was followed by another one iff it failed while
+   elapsed < try_duration, and the next one starts try_interval (+ slack) later *)
+Lemma handle_loop_schedule : forall td ti start atts now pe ts o,
+  handle_loop td ti start now pe atts = (ts, o) ->
+  forall k, (S k < length ts)%nat ->
+    let a := nth k atts (ADialOk, 0, 0) in
+    att_ok a = false /\ nth k ts 0 + att_d a - start < td /\
+    nth (S k) ts 0 = nth k ts 0 + att_d a + ti + att_j a.
+Proof.
+  intros td ti start atts. induction atts as [|[[a d] j] r IH]; intros now pe ts o H k Hk.
+  - cbn in H. inversion H; subst. cbn in Hk. lia.
+  - rewrite handle_loop_unfold in H.
+    destruct (att_ok (a, d, j)) eqn:Eok; [inversion H; subst; cbn in Hk; lia|].
+    destruct (Z.geb_spec (now + d - start) td) as [Hge|Hlt]; [inversion H; subst; cbn in Hk; lia|].
+    destruct (handle_loop td ti start (now + d + ti + j) (upd_err a pe) r) as [ts' o'] eqn:E.
+    inversion H; subst. cbn [length] in Hk.
+    destruct k as [|k].
+    + cbn [nth]. unfold att_d, att_j. cbn [fst snd]. split; [assumption|]. split; [lia|].
+      destruct r as [|b r]; [cbn in E; inversion E; subst; cbn in Hk; lia|].
+      destruct (handle_loop_nonempty _ _ _ _ _ _ _ _ _ E) as [ts2 [-> _]]. reflexivity.
+    + cbn [nth]. apply (IH _ _ _ _ E). lia.
+Qed.
+
+Lemma handle_loop_failed : forall td ti start atts now pe ts o e,
+  handle_loop td ti start now pe atts = (ts, o) -> o = Failed e ->
+  let m := length ts in let a := nth (m - 1) atts (ADialOk, 0, 0) in
+  (1 <= m <= length atts)%nat /\ att_ok a = false /\ td <= nth (m - 1) ts 0 + att_d a - start /\
+  e = err_of (last_error (map att_kind (firstn m atts)) pe).
+Proof.
+  intros td ti start atts. induction atts as [|[[a d] j] r IH]; intros now pe ts o e H Ho.
+  - cbn in H. inversion H; subst. discriminate.
+  - rewrite handle_loop_unfold in H.
+    destruct (att_ok (a, d, j)) eqn:Eok; [inversion H; subst; discriminate|].
+    destruct (Z.geb_spec (now + d - start) td) as [Hge|Hlt].
+    + inversion H; subst. inversion H2; subst. cbn [length Nat.sub nth firstn map]. unfold att_d. cbn [fst snd att_kind].
+      rewrite last_error_cons. cbn [last_error]. repeat split; try assumption; try lia.
+    + destruct (handle_loop td ti start (now + d + ti + j) (upd_err a pe) r) as [ts' o'] eqn:E.
+      inversion H; subst. destruct (IH _ _ _ _ _ E eq_refl) as [Hm [J1 [J2 J3]]].
+      cbn [length]. replace (S (length ts') - 1)%nat with (S (length ts' - 1)) by lia.
+      cbn [nth firstn map]. rewrite last_error_cons. cbn [att_kind fst]. repeat split; try assumption; try lia.
+Qed.
+
+Lemma handle_loop_proxied : forall td ti start atts now pe ts,
+  handle_loop td ti start now pe atts = (ts, Proxied) ->
+  (1 <= length ts <= length atts)%nat /\
+  att_ok (nth (length ts - 1) atts (ANoUpstream, 0, 0)) = true /\
+  forall k, (k < length ts - 1)%nat -> att_ok (nth k atts (ADialOk, 0, 0)) = false.
+Proof.
+  intros td ti start atts. induction atts as [|[[a d] j] r IH]; intros now pe ts H.
+  - cbn in H. inversion H.
+  - rewrite handle_loop_unfold in H.
+    destruct (att_ok (a, d, j)) eqn:Eok.
+    + inversion H; subst. cbn [length Nat.sub nth]. split; [lia|]. split; [assumption|]. intros k Hk; lia.
+    + destruct (Z.geb_spec (now + d - start) td) as [Hge|Hlt]; [inversion H|].
+      destruct (handle_loop td ti start (now + d + ti + j) (upd_err a pe) r) as [ts' o'] eqn:E.
+      inversion H; subst. destruct (IH _ _ _ E) as [Hm [K1 K2]].
+      cbn [length]. replace (S (length ts') - 1)%nat with (S (length ts' - 1)) by lia. cbn [nth].
+      repeat split; try assumption; try lia.
+      intros k Hk. destruct k as [|k]; [assumption|]. cbn [nth]. apply K2. lia.
+Qed.
+
+Lemma handle_first_attempt : forall td ti start a r ts o,
+  handle td ti start (a :: r) = (ts, o) -> nth 0 ts 0 = start.
+Proof.
+  intros. unfold handle in H. destruct (handle_loop_nonempty _ _ _ _ _ _ _ _ _ H) as [ts' [-> _]]. reflexivity.
 Qed.
 
 (* with no slack the attempts are at start, start + ti, start + 2 ti, ... *)
@@ -419,11 +448,14 @@ Qed.
 (* each peer belongs to one upstream, once *)
 Definition topo_ok (c : hcfg) : Prop := NoDup (concat (topo c)).
 
+Lemma nodup_app_r : forall (l1 l2 : list nat), NoDup (l1 ++ l2) -> NoDup l2.
+Proof. induction l1 as [|a l1 IH]; intros l2 H; [assumption|]. cbn in H. inversion H; subst. apply IH; assumption. Qed.
+
 Lemma nodup_concat_nth : forall (l : list (list nat)) u, NoDup (concat l) -> NoDup (nth u l []).
 Proof.
   induction l as [|x l IH]; intros u H.
   - destruct u; constructor.
-  - cbn in H. apply NoDup_app_remove_l in H as H2. destruct u as [|u]; cbn.
+  - cbn in H. pose proof (nodup_app_r _ _ H) as H2. destruct u as [|u]; cbn.
     + clear IH H2. induction x as [|a x IHx]; [constructor|]. cbn in H. inversion H; subst. constructor.
       * intro Hin. apply H2. apply in_or_app; left; assumption.
       * apply IHx; assumption.
@@ -443,7 +475,7 @@ Proof.
   destruct u as [|u]; destruct v as [|v]; cbn in *; try reflexivity.
   - exfalso. eapply Hdisj; eauto. apply (Hin v); [lia|assumption].
   - exfalso. eapply Hdisj; eauto. apply (Hin u); [lia|assumption].
-  - f_equal. apply (IH u v p); try assumption; try lia. apply NoDup_app_remove_l in H; assumption.
+  - f_equal. apply (IH u v p); try assumption; try lia. apply nodup_app_r in H; assumption.
 Qed.
 
 (* invariant: the counter of every peer equals the number of open connections of its upstream *)
